@@ -163,7 +163,6 @@ func statePkgRule(w *World, r *Result, only func(rel string) bool) int {
 	return n
 }
 
-
 // paramReadOnly: the module function fi only reads through its i-th parameter: the parameter is never the root of an
 // assigned or stepped expression, never aliased (assigned to another variable, stored, returned, captured by a
 // closure), only passed on to module functions that are read-only in turn, and the methods called on it are those
